@@ -4,10 +4,10 @@ from __future__ import annotations
 
 import ast
 
-from ..absint import App, Const, Sym
+from ..absint import NONE, App, ClassV, Const, DictV, ExcV, ListV, ObjV, Sym
 from ..flow import FlowPolicy, exits, run_flow
 from ..repo import AnalysisError, body_walk, call_name, norm, short
-from .c14 import RUN_CORO, registry_writes, task_registries
+from .c14 import RUN_CORO, registries_emptied, registry_writes, task_registries
 
 LEVEL_TEXT = (
     "decides necessary structural conditions of C13, not mutual exclusion over interleavings: the three places that "
@@ -155,6 +155,9 @@ def run(ctx):
               msg=f"unique_name2task entries are deleted in {sorted(set(inv))}; only run_coro's finally clause may release a name", key="who deletes unique_name2task",
               rel="function.py", node=program.func(RUN_CORO))
 
+    ctx.rule("R13.7", "the owner's names are released on every exit of run_coro, including cancellation while a done callback is suspended", floor=2)
+    registries_emptied(ctx, program, "R13.7", only={"unique_task2name"})
+
     ctx.rule("R13.5", "@task_unique claims the name before the function body runs (both subsystems)", floor=2)
     # legacy: do_func_call awaits task_unique_func before ast_ctx.call_func
     uid = "trigger.py::TrigInfo.call_action.do_func_call"
@@ -185,9 +188,94 @@ def run(ctx):
     ctx.check("Function.unique_name_used" in names and "Function.task_unique_factory" in names and
               names.index("Function.unique_name_used") < names.index("Function.task_unique_factory"), "R13.5", uid,
               "kill_me pre-check precedes the claim", msg=f"TaskUniqueDecorator.handle_call order is {names}", key="kill_me precheck order", node=f, rel="decorators/task.py")
+    ctx.rule("R13.6", "task.unique transition table: the owner map and the per-task name sets stay mutually consistent (so the owner's exit releases "
+             "exactly its names), only pyscript tasks take names, the right task is handed to the reaper", floor=24)
+    unique_table(ctx, program, "R13.6")
     return (
         "Static, source-only: task_unique is abstractly interpreted path-sensitively; every reaper_cancel event is checked against the guard atoms "
-        "decided on its path (different task, task in our_tasks, kill_me); key forms of the three API sites are compared; write discipline on the two "
-        "maps is checked over the whole package; claim-before-body ordering in both decorator paths.  Not decided: mutual exclusion over interleavings "
+        "decided on its path (different task, task in our_tasks, kill_me); key forms of the three API sites are compared; task_unique interpreted on every small registry model (transition table with "
+        "the two-way consistency invariant of the registries); write discipline on the two maps is checked over the whole package; claim-before-body ordering in both decorator paths.  Not decided: mutual exclusion over interleavings "
         "(cancellation is asynchronous through the reaper)."
     )
+
+
+def _sleep_forever(interp, node, args, kwargs, cfg, out):
+    # `await asyncio.sleep(100000)` after asking the reaper to cancel the caller: it only ever ends by cancellation
+    out.add("raise", cfg.set("$exc", ExcV("CancelledError", "wait to be cancelled")))
+    return []
+
+
+def unique_table(ctx, program, rid):
+    """task_unique interpreted on finite registry models; checks events and the two-way consistency of the registries."""
+    fn = program.func(TU)
+    N, M = "ctx.n", "ctx.m"
+    n_cases = 0
+    for owner in (None, "T_old", "T_cur"):          # who owns the name being claimed
+        for extra in (False, True):                  # the owner also holds a second name
+            if owner is None and extra:
+                continue
+            for old_ours in (True, False):
+                if owner != "T_old" and not old_ours:
+                    continue
+                for cur_ours in (True, False):
+                    if owner == "T_cur" and not cur_ours:
+                        continue
+                    for kill_me in (False, True):
+                        n2t = {}
+                        t2n = {}
+                        if owner:
+                            n2t[N] = owner
+                            t2n[owner] = [N]
+                            if extra:
+                                n2t[M] = owner
+                                t2n[owner].append(M)
+                        ours = (["T_old"] if old_ours else []) + (["T_cur"] if cur_ours else [])
+                        heap = {"Function.unique_name2task": DictV([(Const(k), Const(v)) for k, v in n2t.items()]),
+                                "Function.unique_task2name": DictV([(Const(k), ListV(tuple(Const(x) for x in v), "set")) for k, v in t2n.items()]),
+                                "Function.our_tasks": ListV(tuple(Const(x) for x in ours), "set")}
+                        pol = FlowPolicy(program, events=["cls.reaper_cancel"], may_raise_all=False, cancel=False,
+                                         globals_={"cls": ClassV("Function"), "ctx": ObjV("gctx", "AstEval")},
+                                         summaries={"ctx.get_global_ctx_name": lambda i, n, a, k, c, o: [(c, Const("ctx"))],
+                                                    "asyncio.current_task": lambda i, n, a, k, c, o: [(c, Const("T_cur"))],
+                                                    "asyncio.sleep": _sleep_forever})
+                        out = run_flow(program, TU, pol, args={"name": Const("n"), "kill_me": Const(kill_me)}, heap=heap)
+                        label = f"name owned by {owner or 'nobody'}{' (+ a second name)' if extra else ''}, owner {'is' if old_ours else 'is not'} a pyscript task, " \
+                                f"caller {'is' if cur_ours else 'is not'} a pyscript task, kill_me={kill_me}"
+                        other = owner is not None and owner != "T_cur"
+                        want_cancel = (["T_cur"] if (kill_me and other) else (["T_old"] if (other and not kill_me and old_ours) else []))
+                        bad = None
+                        paths = exits(out)
+                        for kind, c, desc in paths:
+                            cancelled = [e[2][0].v if e[2] and isinstance(e[2][0], Const) else repr(e[2]) for e in c.trace if e[0] == "call" and e[1] == "cls.reaper_cancel"]
+                            a = c.heap.get("Function.unique_name2task")
+                            b = c.heap.get("Function.unique_task2name")
+                            try:
+                                g_n2t = {k.v: v.v for k, v in a.items}
+                                g_t2n = {k.v: sorted(x.v for x in v.items) for k, v in b.items}
+                            except AttributeError:
+                                bad = f"registries become {a!r} / {b!r}"
+                                continue
+                            if cancelled != want_cancel:
+                                bad = f"hands {cancelled} to the reaper, specified {want_cancel}"
+                            elif kill_me and other:
+                                if kind != "raise" or getattr(c.env.get("$exc"), "cls", "") != "CancelledError":
+                                    bad = f"the caller continues ({desc}) although another task owns the name and kill_me is set"
+                                elif g_n2t != n2t or g_t2n != {k: sorted(v) for k, v in t2n.items()}:
+                                    bad = f"registries changed to {g_n2t} / {g_t2n} although the caller is the one being killed"
+                            elif kind != "return":
+                                bad = f"leaves with {desc}"
+                            else:
+                                incons = [f"{n}->{t}" for n, t in g_n2t.items() if n not in g_t2n.get(t, [])] + \
+                                         [f"{t} lists {n}" for t, ns in g_t2n.items() for n in ns if g_n2t.get(n) != t]
+                                if incons:
+                                    bad = f"owner map {g_n2t} and name sets {g_t2n} disagree ({', '.join(incons)}): the owner's exit would not release / would release a name it does not own"
+                                elif cur_ours and g_n2t.get(N) != "T_cur":
+                                    bad = f"the caller does not own the name afterwards (owner map {g_n2t})"
+                                elif not cur_ours and (g_n2t != n2t or g_t2n != {k: sorted(v) for k, v in t2n.items()}):
+                                    bad = f"a task pyscript did not start changes the registries to {g_n2t} / {g_t2n}"
+                                elif extra and other and g_n2t.get(M) != owner:
+                                    bad = f"the previous owner loses its other name {M} (owner map {g_n2t})"
+                        n_cases += 1
+                        ctx.check(bool(paths) and bad is None, rid, TU, f"task.unique: {label}", msg=f"task.unique('n') with {label}: {bad or 'no exit'}",
+                                  key=f"table {label}", node=fn, rel="function.py")
+    return n_cases
